@@ -49,8 +49,8 @@ theorem cacheAfter_is_cache (cfg : Cfg) (hs : Conn → List Req) (us : Nat → L
   rw [cacheAfter_eq cfg cache σ.trace]; exact (snapInv_reach cfg hs us cache σ h).cur
 
 /-- `silent_after_deactivate` without the monitor: every update delivered to `c` for `m:p` is preceded by a request
-marker `activate s` of `c` with `s` covering `m:p`, and no positive reply of `c` to a request ending `s`
-(matching `deactivate`, `*IDN?`, disconnect) lies in between. -/
+marker `activate s` of `c` with `s` covering `m:p`, and no reply of `c` that ends `s` lies in between (`endsReply`:
+the positive reply to the matching `deactivate`; any reply to `*IDN?`; the end of a disconnect, successful or not). -/
 theorem silent_after_deactivate_explicit (cfg : Cfg) (hs : Conn → List Req) (us : Nat → List (Mod × Par × Entry))
     (cache : Mod → Par → Entry) (σ : State) (h : Reach cfg (init hs us cache) σ) : SilentExplicit σ.trace :=
   (silent_iff_explicit σ.trace).1 (silent_after_deactivate cfg hs us cache σ h)
